@@ -1,11 +1,11 @@
 SPECIFICATION Spec
 CONSTANTS
-  NOps = 3
+  NOps = 2
   Kinds = {"pub1", "pub2", "sub", "ping", "disc"}
   Rmax = 2
   Msz = 0
   IdN = 3
-  MaxIn = 2
+  MaxIn = 1
   InQos = {1}
   InIds = {1}
   Reasons = {0, 128}
@@ -15,6 +15,7 @@ CONSTANTS
   SeiSet = {"never"}
   ReR = {2}
   ReM = {0}
+  Handshake = "none"
   RecordSched = FALSE
   Dev = {}
 VIEW view
